@@ -14,7 +14,7 @@ import SafeC.Proofs.ConvQuery
   string comes back unchanged, for every list of non-zero encodable wide characters, both locales.
 
 Every theorem: every configuration `cfg` (slack build, locale, every combination of repairs — `current = allFixed` included),
-every dest content and size, every `len`/`dmax` admitted by the hypotheses, no bound on string lengths.  Where the code
+every dest content and size, every `len`/`dmax` allowed by the hypotheses, no bound on string lengths.  Where the code
 as it was before the repairs fails (empty wide string: `wcstombs-empty-source-rejected`) the hypothesis names the repair.
 -/
 namespace SafeC.Props.C15
